@@ -2,20 +2,36 @@ package main
 
 // Axioms in lemmas (added for C32).
 //
-// A `lemma` is a closed query over its parameters. The axioms of the lemma's own package (the definitional axioms of the
-// uninterpreted spec functions the lemma talks about: written in a contract file of that package, or in a trusted .spec
-// file under `package <that package>`) are now assumed in it, exactly as they are in every function of that package, and
-// listed among the lemma's assumptions. Axioms of other packages are not added (they cannot be about this package's
-// vocabulary, and may mention globals that do not resolve here).
+// A `lemma` is a closed query over its parameters. The PROPERTY-SCOPED axioms (`axiom @Cnn E`, see axiomInScope below) of the
+// lemma's own package and of the packages it imports directly -- the definitional axioms of the uninterpreted spec functions
+// the lemma talks about, written in a contract file of that package or in a trusted .spec file under `package <pkg>` -- are
+// assumed in a lemma tagged with that property, exactly as they are in the functions of that property, and listed among the
+// lemma's assumptions. Unscoped axioms never enter lemmas (as before), so lemmas of other properties are unchanged.
 func (eng *Engine) assumeLemmaAxioms(fc *FnCtx, st *State, l *Lemma) error {
+	lp := eng.pkgOfSpec(&FuncSpec{Pkg: l.Pkg})
 	for _, ax := range eng.contracts.Axioms {
-		if ax.Pkg == "" || ax.Pkg != l.Pkg || !axiomInScope(ax, l.Props) {
+		if ax.Pkg == "" || len(ax.Props) == 0 || !axiomInScope(ax, l.Props) {
+			continue // only property-scoped axioms (`axiom @Cnn ...`) enter lemmas: lemmas of other properties are unchanged
+		}
+		// the lemma's own package, or a package it imports directly (the rule axiomRelevant applies to functions)
+		rel := ax.Pkg == l.Pkg
+		if !rel && lp != nil {
+			for _, imp := range lp.Imports() {
+				if shortType(imp.Path()) == ax.Pkg {
+					rel = true
+				}
+			}
+		}
+		if !rel {
 			continue
 		}
 		aenv := &SpecEnv{fc: fc, vars: map[string]SV{}, cur: st, old: st, pkg: eng.pkgOfSpec(&FuncSpec{Pkg: ax.Pkg})}
 		t, e := aenv.evalBool(ax.E)
 		if e != nil {
-			return e
+			if ax.Pkg == l.Pkg && len(ax.Props) > 0 {
+				return e
+			}
+			continue // an axiom that does not evaluate in a lemma context (e.g. about a package global) is dropped: sound
 		}
 		fc.assumes["axiom: "+ax.Text+" ("+ax.Src+")"] = true
 		fc.assume("true", t)
